@@ -665,8 +665,9 @@ def find_simple_const(src: str, name: str):
     if not mm or "{" in mm.group(2):
         return None
     ty = re.sub(r"&\s*(?!')", "&'static ", mm.group(1).strip())
-    if "(" in mm.group(2):
-        # initializer calls a (const) function: an `exec const` lets Verus evaluate it in exec mode
+    if re.search(r"[A-Za-z_]\w*\s*(?:::\s*<[^>]*>\s*)?\(", mm.group(2)):
+        # initializer CALLS a (const) function: an `exec const` lets Verus evaluate it in exec mode (its value is then opaque to the
+        # proof; a tuple / struct literal keeps the plain `const` form below, whose value the proof sees)
         return _line_of(src, a), "pub exec const %s: %s ensures true { %s }" % (name, ty, mm.group(2).strip())
     return _line_of(src, a), "pub const %s: %s = %s;" % (name, ty, mm.group(2).strip())
 
